@@ -8,11 +8,9 @@
 (* the code-shaped fields.                                                                                *)
 (*                                                                                                        *)
 (* Time is an integer number of units; one window slice (period/10) is SliceU units.                      *)
-EXTENDS Integers, Sequences, FiniteSets, TLC, Json
+EXTENDS BreakerOps, TLC, Json
 
 CONSTANTS
-  Cfg,      \* [fthr, fcap, frate, fexec, period (0 = count based; else = 10*SliceU), sthr, scap, delay]
-  SliceU,   \* units per time slice
   Ticks,    \* set of clock advances offered to the environment
   Letters,  \* enabled standalone letters, subset of {"RecS","RecF","Try","open","halfopen","closed"}
   ExecDelays, \* delay-function values offered to executions through the breaker (-1 = no computed delay); {} = no executions
@@ -28,120 +26,6 @@ VARIABLES
 
 vars == <<now, br, log, epochAt, odl, hist>>
 
-Max(a, b) == IF a > b THEN a ELSE b
-Min(a, b) == IF a < b THEN a ELSE b
-
-----------------------------------------------------------------------------
-(* ---- countingStats (circuitstats.go:29-125) ---- *)
-NewCounting(size) ==
-  [kind |-> "count", size |-> size, bits |-> [i \in 0..(size-1) |-> FALSE], head |-> 0, occ |-> 0, succ |-> 0, fail |-> 0]
-
-\* setNext: evict the bit under head when full, then write and advance
-CountRecord(s, ok) ==
-  LET full == s.occ >= s.size
-      evS == IF full /\ s.bits[s.head] THEN 1 ELSE 0
-      evF == IF full /\ ~s.bits[s.head] THEN 1 ELSE 0
-  IN [s EXCEPT !.occ = IF full THEN @ ELSE @ + 1,
-               !.succ = @ - evS + (IF ok THEN 1 ELSE 0),
-               !.fail = @ - evF + (IF ok THEN 0 ELSE 1),
-               !.bits[s.head] = ok,
-               !.head = (s.head + 1) % s.size]
-
-(* ---- timedStats (circuitstats.go:128-228) ---- *)
-NewTimed == [kind |-> "timed", b |-> [i \in 0..9 |-> [s |-> 0, f |-> 0]], sum |-> [s |-> 0, f |-> 0], head |-> 0]
-
-\* currentBucket(): expire min(10, newHead-head) buckets after head, move head
-TimedAdvance(s, t) ==
-  LET nh == t \div SliceU IN
-  IF nh > s.head THEN
-     LET n == Min(10, nh - s.head)
-         idxs == {((s.head + i + 1) % 10) : i \in 0..(n-1)}
-         remS == LET RECURSIVE Sm(_) Sm(S) == IF S = {} THEN 0 ELSE LET x == CHOOSE x \in S : TRUE IN s.b[x].s + Sm(S \ {x}) IN Sm(idxs)
-         remF == LET RECURSIVE Sm(_) Sm(S) == IF S = {} THEN 0 ELSE LET x == CHOOSE x \in S : TRUE IN s.b[x].f + Sm(S \ {x}) IN Sm(idxs)
-     IN [s EXCEPT !.b = [i \in 0..9 |-> IF i \in idxs THEN [s |-> 0, f |-> 0] ELSE s.b[i]],
-                  !.sum = [s |-> s.sum.s - remS, f |-> s.sum.f - remF],
-                  !.head = nh]
-  ELSE s
-
-TimedRecord(s0, ok, t) ==
-  LET s == TimedAdvance(s0, t)   i == s.head % 10 IN
-  IF ok THEN [s EXCEPT !.b[i].s = @ + 1, !.sum.s = @ + 1]
-        ELSE [s EXCEPT !.b[i].f = @ + 1, !.sum.f = @ + 1]
-
-StRecord(s, ok, t) == IF s.kind = "count" THEN CountRecord(s, ok) ELSE TimedRecord(s, ok, t)
-StSucc(s) == IF s.kind = "count" THEN s.succ ELSE s.sum.s
-StFail(s) == IF s.kind = "count" THEN s.fail ELSE s.sum.f
-StExec(s) == IF s.kind = "count" THEN s.occ ELSE s.sum.s + s.sum.f
-\* uint(math.Round(x / n * 100)) : nearest integer, halves up
-Pct(x, n) == IF n = 0 THEN 0 ELSE (200 * x + n) \div (2 * n)
-StFRate(s) == Pct(StFail(s), StExec(s))
-StSRate(s) == Pct(StSucc(s), StExec(s))
-Metrics(s) == <<StExec(s), StFail(s), StFRate(s), StSucc(s), StSRate(s)>>
-
-----------------------------------------------------------------------------
-(* ---- states (circuitstates.go) ---- *)
-ClosedStats == IF Cfg.period # 0 THEN NewTimed
-               ELSE NewCounting(IF Cfg.fexec # 0 THEN Cfg.fexec ELSE Cfg.fcap)
-HalfCap == IF Cfg.scap # 0 THEN Cfg.scap ELSE IF Cfg.fexec # 0 THEN Cfg.fexec ELSE Cfg.fcap
-
-NewClosed == [st |-> "closed", stats |-> ClosedStats, openedAt |-> 0, odelay |-> 0, permitted |-> 0]
-ToOpen(b, t, d) == [b EXCEPT !.st = "open", !.openedAt = t, !.odelay = d]          \* keeps previous stats (shared)
-NewHalf == [st |-> "halfopen", stats |-> NewCounting(HalfCap), openedAt |-> 0, odelay |-> 0, permitted |-> HalfCap]
-
-\* transitionTo: only when the state differs; the event carries the OLD state's metrics
-\* dl: ComputeDelay(exec), else the configured delay (transitionTo: "if delay == -1 { delay = cb.Delay }")
-TransD(b, to, t, dl) ==
-  IF b.st = to THEN [b |-> b, ev |-> <<>>]
-  ELSE [b |-> CASE to = "closed" -> NewClosed
-                [] to = "open" -> ToOpen(b, t, IF dl = -1 THEN Cfg.delay ELSE dl)
-                [] to = "halfopen" -> NewHalf,
-        ev |-> <<[old |-> b.st, new |-> to, m |-> Metrics(b.stats)]>>]
-Trans(b, to, t) == TransD(b, to, t, -1)
-
-\* closedState.checkThresholdAndReleasePermit
-ClosedCheck(b, t, dl) ==
-  IF /\ StExec(b.stats) >= Cfg.fexec
-     /\ \/ (Cfg.frate # 0 /\ StFRate(b.stats) >= Cfg.frate)
-        \/ (Cfg.frate = 0 /\ StFail(b.stats) >= Cfg.fthr)
-  THEN TransD(b, "open", t, dl) ELSE [b |-> b, ev |-> <<>>]
-
-\* halfOpenState.checkThresholdAndReleasePermit (the permit++ lands on the old state object: lost on a transition)
-HalfCheck(b, t, dl) ==
-  LET s == b.stats
-      sx == IF Cfg.sthr # 0 THEN StSucc(s) >= Cfg.sthr
-            ELSE IF Cfg.frate # 0 THEN StExec(s) >= Cfg.fexec /\ StSRate(s) > 100 - Cfg.frate
-            ELSE StSucc(s) > Cfg.fcap - Cfg.fthr
-      fx == IF Cfg.sthr # 0 THEN StFail(s) > Cfg.scap - Cfg.sthr
-            ELSE IF Cfg.frate # 0 THEN StExec(s) >= Cfg.fexec /\ StFRate(s) >= Cfg.frate
-            ELSE StFail(s) >= Cfg.fthr
-  IN IF sx THEN Trans(b, "closed", t)
-     ELSE IF fx THEN TransD(b, "open", t, dl)
-     ELSE [b |-> [b EXCEPT !.permitted = @ + 1], ev |-> <<>>]
-
-\* recordSuccess / recordFailure: record into the current state's stats (open: the previous state's), then check
-\* dl = the delay function's value for the failing execution being recorded (-1: none / standalone call)
-RecordD(b, ok, t, dl) ==
-  LET b1 == [b EXCEPT !.stats = StRecord(b.stats, ok, t)] IN
-  CASE b.st = "closed" -> ClosedCheck(b1, t, dl)
-    [] b.st = "open" -> [b |-> b1, ev |-> <<>>]
-    [] b.st = "halfopen" -> HalfCheck(b1, t, dl)
-Record(b, ok, t) == RecordD(b, ok, t, -1)
-
-\* tryAcquirePermit
-TryAcq(b, t) ==
-  CASE b.st = "closed" -> [b |-> b, ev |-> <<>>, ret |-> TRUE]
-    [] b.st = "open" ->
-         IF t - b.openedAt >= b.odelay
-         THEN LET r == Trans(b, "halfopen", t) IN
-              [b |-> [r.b EXCEPT !.permitted = @ - 1], ev |-> r.ev, ret |-> TRUE]    \* HalfCap >= 1
-         ELSE [b |-> b, ev |-> <<>>, ret |-> FALSE]
-    [] b.st = "halfopen" ->
-         IF b.permitted > 0 THEN [b |-> [b EXCEPT !.permitted = @ - 1], ev |-> <<>>, ret |-> TRUE]
-         ELSE [b |-> b, ev |-> <<>>, ret |-> FALSE]
-
-RemainingDelay(b, t) == IF b.st = "open" THEN Max(0, b.odelay - (t - b.openedAt)) ELSE 0
-
-----------------------------------------------------------------------------
 Obs(b, t, ev, ret) ==
   [state |-> b.st, rem |-> RemainingDelay(b, t), m |-> Metrics(b.stats), events |-> ev, ret |-> ret]
 
